@@ -1,4 +1,4 @@
-HOOK_COMMITS = ["0367723"]
+HOOK_COMMITS = ["0367723", "b96083b"]
 
 _BCL_NOTE = ("bounded exhaustive within the stated lengths; token atoms are concretised by a small trusted table whose result is re-lexed "
              "and compared; random bytes / fixture mutations / description re-flow are plain randomized testing outside the models")
